@@ -9293,3 +9293,257 @@ func ruleCheckNotCacheGated(c *Ctx) {
 	}
 	c.Floor("checkBalance calls in the pool", n, 2)
 }
+
+// ruleWitnessRecheckClasses (C06, C07): after every block the pool keeps a transaction without executing its witnesses
+// again only when no witness *can* have changed its mind: a standard signature or multisignature script reads no
+// state. A contract-based witness (empty verification script: the account's deployed `verify` runs) and a custom
+// verification script (runs with ReadOnly flags, may read storage, the height, the time) can both turn false while
+// the transaction waits; AddBlock trusts the pool and does not verify a transaction it finds there as it is. The loop
+// of IsTxStillRelevant that raises the re-verification flag is folded over the three classes of verification script -
+// empty, standard, other - and has to raise the flag for the first and the last.
+func ruleWitnessRecheckClasses(c *Ctx) {
+	fd := c.P.Func("pkg/core", "Blockchain", "IsTxStillRelevant")
+	if fd == nil {
+		c.Lost("witness-recheck-classes.anchor", "Blockchain.IsTxStillRelevant not found")
+		return
+	}
+	f := c.P.NewFuncCFG(fd)
+	info := f.Info
+	type class struct {
+		name            string
+		empty, standard bool
+	}
+	classes := []class{{"empty (contract-based witness)", true, false}, {"standard signature/multisignature", false, true}, {"custom script", false, false}}
+	var eval func(e ast.Expr, cl class) (bool, bool)
+	eval = func(e ast.Expr, cl class) (bool, bool) {
+		switch x := ast.Unparen(e).(type) {
+		case *ast.UnaryExpr:
+			if x.Op == token.NOT {
+				v, ok := eval(x.X, cl)
+				return !v, ok
+			}
+		case *ast.BinaryExpr:
+			switch x.Op {
+			case token.LAND, token.LOR:
+				l, ok1 := eval(x.X, cl)
+				r, ok2 := eval(x.Y, cl)
+				if x.Op == token.LAND {
+					return l && r, ok1 && ok2
+				}
+				return l || r, ok1 && ok2
+			case token.EQL, token.NEQ, token.GTR:
+				// len(script) == 0 / != 0 / > 0
+				if call, ok := ast.Unparen(x.X).(*ast.CallExpr); ok && f.calleeSym(call) == "builtin.len" && isZeroConst(info, x.Y) {
+					switch x.Op {
+					case token.EQL:
+						return cl.empty, true
+					default:
+						return !cl.empty, true
+					}
+				}
+			}
+		case *ast.CallExpr:
+			switch sym := f.calleeSym(x); {
+			case strings.HasSuffix(sym, "scparser.IsStandardContract"):
+				return cl.standard, true
+			case strings.HasSuffix(sym, "scparser.IsSignatureContract"), strings.HasSuffix(sym, "scparser.IsMultiSigContract"):
+				// one of the two standard forms: true for some standard scripts only - not foldable per class
+				return false, false
+			}
+		}
+		return false, false
+	}
+	// the loop over t.Scripts whose body assigns true to a local that later gates verifyTxWitnesses
+	var cond ast.Expr
+	ast.Inspect(fd.Decl.Body, func(x ast.Node) bool {
+		is, ok := x.(*ast.IfStmt)
+		if !ok || cond != nil {
+			return true
+		}
+		sets := false
+		for _, st := range is.Body.List {
+			if as, ok := st.(*ast.AssignStmt); ok && len(as.Rhs) == 1 {
+				if v, isC := boolConst(info, as.Rhs[0]); isC && v {
+					sets = true
+				}
+			}
+		}
+		if sets && len(f.DirectMentions(is.Cond)) >= 0 && strings.Contains(types.ExprString(is.Cond), "VerificationScript") {
+			cond = is.Cond
+		}
+		return true
+	})
+	if cond == nil {
+		c.Lost("witness-recheck-classes.shape", "the test that raises the witness re-verification flag in IsTxStillRelevant was not found")
+		return
+	}
+	var bad []string
+	for _, cl := range classes {
+		v, ok := eval(cond, cl)
+		if !ok {
+			c.Unclassified("witness-recheck-classes", c.P.Pos(cond.Pos()), "the re-verification test has an atom the rule does not fold over the classes of verification script")
+			return
+		}
+		if !cl.standard && !v {
+			bad = append(bad, cl.name)
+		}
+	}
+	if len(bad) == 0 {
+		c.OK("witness-recheck-classes", c.P.Pos(cond.Pos()), "witnesses with an empty or a custom verification script are executed again after every block; only standard ones are exempt")
+	} else {
+		c.Fail("witness-recheck-classes", c.P.Pos(cond.Pos()), fmt.Sprintf("IsTxStillRelevant decides with `%s` whether the witnesses of a pooled transaction are executed again after a block; that test does not hold for a witness with %s verification script, which runs with read access to the chain and can turn false while the transaction waits in the pool. AddBlock does not verify a transaction it finds in the pool as it is, so a block carrying it is accepted where a node that never pooled it rejects the block", types.ExprString(cond), strings.Join(bad, " / ")))
+	}
+}
+
+// ruleFlagsNarrowed (C15, C16): call flags only ever shrink along a call chain: whoever loads a new context from
+// inside an execution - System.Contract.Call, System.Runtime.LoadScript - gives it the requested flags *intersected
+// with its own*. getContractGroups, the storage interops and the natives' flag checks all trust that: a context that
+// holds ReadStates got it from every caller above it. The flag argument of every VM loader called from the interop
+// layer is an expression that (through the definitions of the locals it names) and-s with the current context's
+// GetCallFlags().
+func ruleFlagsNarrowed(c *Ctx) {
+	n := 0
+	for _, fd := range c.P.AllFuncDecls() {
+		rel := pkgRel(fd.Pkg.Types)
+		if fd.Decl.Body == nil || !strings.HasPrefix(rel, "pkg/core/interop") {
+			continue
+		}
+		f := c.P.NewFuncCFG(fd)
+		info := f.Info
+		inspectNoLit(fd.Decl.Body, func(x ast.Node) bool {
+			call, ok := x.(*ast.CallExpr)
+			if !ok {
+				return true
+			}
+			cf := calleeFunc(info, call)
+			if cf == nil || cf.Pkg() == nil || pkgRel(cf.Pkg()) != "pkg/vm" || !strings.HasPrefix(cf.Name(), "Load") {
+				return true
+			}
+			sig := cf.Type().(*types.Signature)
+			for i := 0; i < sig.Params().Len() && i < len(call.Args); i++ {
+				if !namedTypeIs(sig.Params().At(i).Type(), "pkg/smartcontract/callflag", "CallFlag") {
+					continue
+				}
+				n++
+				key := fmt.Sprintf("%s->%s", shortSym(FuncKey(fd.Obj)), cf.Name())
+				// every definition of the locals in the argument, transitively
+				narrowed := false
+				seen := map[types.Object]bool{}
+				var walk func(e ast.Node, depth int)
+				walk = func(e ast.Node, depth int) {
+					ast.Inspect(e, func(y ast.Node) bool {
+						switch z := y.(type) {
+						case *ast.BinaryExpr:
+							if z.Op == token.AND {
+								if strings.Contains(types.ExprString(z), "GetCallFlags()") {
+									narrowed = true
+								}
+							}
+						case *ast.Ident:
+							v, ok := info.ObjectOf(z).(*types.Var)
+							if !ok || v.IsField() || seen[v] || depth > 3 {
+								return true
+							}
+							seen[v] = true
+							// all assignments to v in the function (plain and compound)
+							ast.Inspect(fd.Decl.Body, func(w ast.Node) bool {
+								as, ok := w.(*ast.AssignStmt)
+								if !ok {
+									return true
+								}
+								for li, l := range as.Lhs {
+									if id, ok := ast.Unparen(l).(*ast.Ident); ok && info.ObjectOf(id) == types.Object(v) {
+										if as.Tok == token.AND_ASSIGN && li < len(as.Rhs) && strings.Contains(types.ExprString(as.Rhs[li]), "GetCallFlags()") {
+											narrowed = true
+										}
+										if li < len(as.Rhs) {
+											walk(as.Rhs[li], depth+1)
+										}
+									}
+								}
+								return true
+							})
+						}
+						return true
+					})
+				}
+				walk(call.Args[i], 0)
+				if narrowed {
+					c.OK(key, c.P.Pos(call.Pos()), "the flags of the new context are and-ed with the current context's")
+				} else {
+					c.Fail(key, c.P.Pos(call.Pos()), fmt.Sprintf("%s loads a new context with flags `%s` that are not intersected with the flags of the context that asks for it: a contract entered without ReadStates (or without AllowCall, WriteStates ...) hands them to whatever it loads, and everything below that trusts the flags of the current context - the group lookups of CheckWitness, the storage interops, the natives - is open to it again", FuncKey(fd.Obj), types.ExprString(call.Args[i])))
+				}
+			}
+			return true
+		})
+	}
+	c.Floor("contexts loaded from the interop layer", n, 2)
+}
+
+// ruleKeyIdentityComplete (C15): a public key is a point, two coordinates. keys.PublicKey.Equal - what
+// manifest.Groups.Contains, the CustomGroups scope and the Group / CalledByGroup conditions compare with - is defined
+// as Cmp(...) == 0, so the comparison has to look at both: the point with the same X and the other Y is another key
+// (private key n-d), with another compressed form and a valid signature of its own. Every *big.Int field of the key
+// is read by the function Equal reduces to.
+func ruleKeyIdentityComplete(c *Ctx) {
+	eq := c.P.Func("pkg/crypto/keys", "PublicKey", "Equal")
+	if eq == nil {
+		c.Lost("key-identity-complete.anchor", "keys.PublicKey.Equal not found")
+		return
+	}
+	info := eq.Pkg.TypesInfo
+	// the comparison Equal reduces to: Equal itself plus the methods of PublicKey it calls (depth 2)
+	seen := map[*FuncDecl]bool{}
+	read := map[string]bool{}
+	var visit func(fd *FuncDecl, depth int)
+	visit = func(fd *FuncDecl, depth int) {
+		if fd == nil || fd.Decl.Body == nil || seen[fd] || depth > 2 {
+			return
+		}
+		seen[fd] = true
+		ast.Inspect(fd.Decl.Body, func(x ast.Node) bool {
+			switch y := x.(type) {
+			case *ast.SelectorExpr:
+				if v, ok := info.ObjectOf(y.Sel).(*types.Var); ok && v.IsField() {
+					read[v.Name()] = true
+				}
+			case *ast.CallExpr:
+				if fn := calleeFunc(info, y); fn != nil && fn.Name() != "IsInfinity" {
+					if d := c.P.DeclOf(fn); d != nil && d.Pkg == eq.Pkg {
+						visit(d, depth+1)
+					}
+				}
+			}
+			return true
+		})
+	}
+	visit(eq, 0)
+	tn, _ := eq.Pkg.Types.Scope().Lookup("PublicKey").(*types.TypeName)
+	if tn == nil {
+		c.Lost("key-identity-complete.type", "keys.PublicKey not found")
+		return
+	}
+	st, _ := tn.Type().Underlying().(*types.Struct)
+	if st == nil {
+		c.Lost("key-identity-complete.type", "keys.PublicKey is not a struct")
+		return
+	}
+	n := 0
+	var missing []string
+	for i := 0; i < st.NumFields(); i++ {
+		fl := st.Field(i)
+		if types.TypeString(fl.Type(), nil) != "*math/big.Int" {
+			continue
+		}
+		n++
+		if !read[fl.Name()] {
+			missing = append(missing, fl.Name())
+		}
+	}
+	c.Floor("coordinates of a public key", n, 2)
+	if len(missing) == 0 {
+		c.OK("key-identity-complete", c.P.Pos(eq.Decl.Pos()), "PublicKey.Equal compares every coordinate")
+	} else {
+		c.Fail("key-identity-complete", c.P.Pos(eq.Decl.Pos()), fmt.Sprintf("keys.PublicKey.Equal (through Cmp) never reads %s: two different keys - the point and its mirror image, private keys d and n-d - compare equal, so a signer that allows group K is witnessed inside a contract whose manifest lists only the mirrored key, a Deny Group(K) rule hits the wrong contracts, and a manifest listing both is refused as a duplicate", strings.Join(missing, ", ")))
+	}
+}
